@@ -20,6 +20,7 @@
 package c17
 
 import (
+	"bytes"
 	"fmt"
 	"os"
 	"path/filepath"
@@ -605,6 +606,144 @@ func codec(c *fw.Ctx) {
 	c.Extra("exhaustive_subspace", fmt.Sprintf("reference codec: every column index in [0,%d) and every (col,row) in [0,%d)x[0,%d)", nCols, gridC, gridR))
 }
 
+// runDamagedSheet: a conforming workbook in which one worksheet part (not the
+// last sheet) is cut off in the middle of a row. Whether the reader refuses the
+// workbook, drops that sheet or shows the rows in front of the cut is not
+// judged; the sheets whose parts are intact still show exactly their own cells.
+func runDamagedSheet(c *fw.Ctx, idx int) {
+	id := fmt.Sprintf("dmg:%d", idx)
+	if !c.Want(id) {
+		return
+	}
+	wb, m := genWorkbook(c, 100000+idx, genOpts{})
+	if len(m.Sheets) < 2 {
+		return
+	}
+	r := c.Rand("dmg", idx)
+	victim := r.Intn(len(m.Sheets) - 1)
+	if wb.Sheets[victim].Missing {
+		return
+	}
+	members := wb.Members(c.Rand("dmg", idx, "render"))
+	cutOK := false
+	for i := range members {
+		if members[i].Name != wb.Sheets[victim].Part {
+			continue
+		}
+		d := members[i].Data
+		var rows []int
+		for at := 0; ; {
+			k := bytes.Index(d[at:], []byte("</row>"))
+			if k < 0 {
+				break
+			}
+			rows = append(rows, at+k)
+			at += k + 6
+		}
+		if len(rows) < 2 {
+			return
+		}
+		end := rows[1+r.Intn(len(rows)-1)]
+		cut := end - 1 - r.Intn(min(12, end-rows[0]-6))
+		members[i].Data = append([]byte{}, d[:cut]...)
+		cutOK = true
+	}
+	if !cutOK {
+		return
+	}
+	data := ooxml.PartZip(members)
+	path := filepath.Join(c.Work, fmt.Sprintf("c17-dmg-%d.xlsx", idx))
+	if os.WriteFile(path, data, 0o644) != nil {
+		return
+	}
+	defer os.Remove(path)
+	detail := map[string]any{"features": m.Features, "sheets": len(m.Sheets), "damaged_sheet": victim, "damaged_part": wb.Sheets[victim].Part}
+	c.Case(fmt.Sprintf("dmg|%d|%d|%v", idx, victim, m.Features), true)
+	var fails []failure
+	var cmp int64
+	names := make([]string, len(m.Sheets))
+	for i := range m.Sheets {
+		names[i] = m.Sheets[i].Name
+	}
+	c.Guard("xlsx-damaged-sheet", id, detail, func() {
+		xr, err := xlsx.Open(path)
+		if err != nil {
+			c.Count("damaged_sheet_workbooks_refused", 1)
+			return
+		}
+		defer xr.Close()
+		got := xr.SheetNames()
+		for k := range m.Sheets {
+			if k == victim {
+				continue
+			}
+			sm := &m.Sheets[k]
+			at := -1
+			for j, nm := range got {
+				if nm == sm.Name {
+					at = j
+				}
+			}
+			if at < 0 {
+				continue // which sheets survive is C18's subject
+			}
+			sh, err := xr.Sheet(at)
+			if err != nil || sh == nil {
+				continue
+			}
+			c.Count("intact_sheets_beside_a_damaged_one_checked", 1)
+			for _, a := range sortedWant(sm) {
+				cmp++
+				cell := sh.Cell(a[0], a[1])
+				if cell == nil || stripWS(cell.Value) != stripWS(sm.Want[a]) {
+					g := "<nil>"
+					if cell != nil {
+						g = cell.Value
+					}
+					fails = append(fails, failure{"damaged-neighbour/grid", fmt.Sprintf("sheet %q (part intact; sheet %d of the workbook is cut off mid-row): Cell(%d,%d) [%s] = %q, want %q", sm.Name, victim, a[0], a[1], ooxml.XRef(a[1], a[0]), g, sm.Want[a])})
+					break
+				}
+			}
+			for ri, row := range sh.Rows {
+				for ci := range row {
+					cell := sh.Cell(ri, ci)
+					a := [2]int{ri, ci}
+					if cell == nil || stripWS(cell.Value) == "" || sm.Covered[a] {
+						continue
+					}
+					if _, ok := sm.Want[a]; !ok {
+						cmp++
+						fails = append(fails, failure{"damaged-neighbour/foreign-value", fmt.Sprintf("sheet %q (part intact; sheet %d of the workbook is cut off mid-row): Cell(%d,%d) [%s] holds %q, the sheet has no such cell", sm.Name, victim, ri, ci, ooxml.XRef(ci, ri), cell.Value)})
+						return
+					}
+				}
+			}
+		}
+		md, err := xr.Markdown()
+		if err != nil {
+			return
+		}
+		tabs := mdTables(md, names)
+		for k := range m.Sheets {
+			if tab, ok := tabs[m.Sheets[k].Name]; ok && k != victim {
+				for _, f := range checkTable("Markdown", tab, &m.Sheets[k], false, &cmp) {
+					f.class = "damaged-neighbour/" + f.class
+					f.what = fmt.Sprintf("(sheet %d of the workbook is cut off mid-row) ", victim) + f.what
+					fails = append(fails, f)
+				}
+			}
+		}
+	})
+	c.Count("cell_comparisons", cmp)
+	seen := map[string]bool{}
+	for _, f := range fails {
+		if !seen[f.class] {
+			seen[f.class] = true
+			c.Fail("", f.class, id, f.what, detail)
+		}
+	}
+}
+
 // Run is the C17 check.
 func Run(c *fw.Ctx) {
 	c.Rule("case = one generated workbook (1..5 sheets; address set, cell kinds, merges, writing order, ZIP order) or one codec point; " +
@@ -673,6 +812,7 @@ func Run(c *fw.Ctx) {
 			c.Fail(finding, f.class, id, f.what, detail)
 		}
 	})
+	c.Parallel(c.N(150, 2500), func(i int) { runDamagedSheet(c, i) })
 	if c.Only == "" && c.Evaluations() < int64(n) {
 		c.Inconclusive("fewer cases executed than planned")
 	}
